@@ -11,6 +11,18 @@ import glob, json, os, re, shutil, subprocess, sys, tempfile
 from concurrent.futures import ThreadPoolExecutor
 ROOT = os.path.dirname(os.path.dirname(os.path.abspath(__file__)))
 ENV = dict(os.environ, GOFLAGS="-mod=mod", GOPROXY="off", GOSUMDB="off", GOTOOLCHAIN="local")
+def trim_cache(limit_gb=40):
+    """the go build cache only drops entries that are days old; hundreds of patched copies fill the disk"""
+    try:
+        d = subprocess.run(["go", "env", "GOCACHE"], env=ENV, stdout=subprocess.PIPE, text=True).stdout.strip()
+        out = subprocess.run(["du", "-s", "-B1G", d], stdout=subprocess.PIPE, text=True).stdout.split()
+        if out and int(out[0]) > limit_gb:
+            subprocess.run(["go", "clean", "-cache"], env=ENV)
+    except Exception:
+        pass
+
+trim_cache()
+
 args = sys.argv[1:]
 def opt(name, default=None):
     if name in args:
